@@ -119,6 +119,30 @@ func pushdownAllowed(opts *Opts, query *sql.Query) (bool, error) {
 				log.Debugf("Unexpected error checking if pushdown allowed: %v", err)
 				return false, err
 			}
+			// The rows of a table are confined to one partition per key only if the
+			// key determines the partition: either the table groups by all
+			// dimensions, or every partition key is one of its group by dimensions.
+			// Otherwise the same key lives on several partitions and no query can
+			// be answered by a plain union of the partitions' answers.
+			if tableGroupBy := t.GetGroupBy(); len(tableGroupBy) > 0 {
+				partitionBy := t.GetPartitionBy()
+				if len(partitionBy) == 0 {
+					log.Debug("Pushdown not allowed because table groups by specific dimensions but is partitioned by all")
+					return false, nil
+				}
+				tableGroupParams := make(map[string]bool)
+				for _, groupBy := range tableGroupBy {
+					groupBy.Expr.WalkOneToOneParams(func(param string) {
+						tableGroupParams[param] = true
+					})
+				}
+				for _, partitionKey := range partitionBy {
+					if !tableGroupParams[partitionKey] {
+						log.Debugf("Pushdown not allowed because partition key %v is not part of the table's group by", partitionKey)
+						return false, nil
+					}
+				}
+			}
 			if current.GroupByAll && parentGroupByAll {
 				log.Debug("Pushdown allowed because we're grouping by all")
 			} else {
